@@ -171,7 +171,7 @@ func runC25(c *Ctx) {
 			"storage/leveldb.newPrefixStorageBatch", "storage/leveldb.(*PrefixStorageBatch).Put", "storage/leveldb.(*PrefixStorageBatch).Delete",
 			"storage/leveldb.(*PrefixStorageBatch).LBatch", PS+"Batch")
 	}
-	c.OnlyIn("call PrefixStorageBatch.LBatch", c.WhoCalls("(*storage/leveldb.PrefixStorageBatch).LBatch"), 0)
+	c.OnlyIn("call PrefixStorageBatch.LBatch", c.WhoCalls("(*storage/leveldb.PrefixStorageBatch).LBatch"), 0, "storage/leveldb.(*Storage).BatchFuncWithNewBatch") // the save function of the batch function (seen only with resolved dynamic calls)
 	if fn := c.Need(PS + "Batch"); fn != nil {
 		raw := c.CallsTo(fn, "(*storage/leveldb.Storage).Batch")
 		c.MP(fn, "Batch: written only while the prefix is set", raw, 1, GNonNil("st.key(*)"))
